@@ -23,6 +23,7 @@ from .CDictCompositionMCNP import CDictCompositionMCNP
 from .ConvertIsotope import convert_isotope
 from .EIsotopeNameElementT4 import EIsotopeNameElement
 from .Abundances import Abundances
+from ..Utils import normalize_float
 
 
 def compositionConversionMCNPToT4(mcnp_parser):
@@ -49,9 +50,25 @@ def compositionConversionMCNPToT4(mcnp_parser):
             else:
                 mass_number_t4 = mass_number
             isotope_t4 = atomic_number_t4, mass_number_t4
-            l_composition_t4.append((isotope_t4, str_fabs(fraction)))
+            l_composition_t4.append((isotope_t4,
+                                     python_float_str(str_fabs(fraction))))
         d_composition_t4[key] = Abundances(l_composition_t4, atom_fracs)
     return d_composition_t4
+
+
+def python_float_str(number_str):
+    '''Return `number_str` unchanged if it is written in a notation that can
+    be read back as is (by Python and TRIPOLI-4); numbers in Fortran-only
+    notation (``1.5-3``, ``1.5d-3``) are rewritten with an ``e`` exponent.
+
+    :param str number_str: a number, as a string
+    :returns: the same number, as a string
+    '''
+    try:
+        float(number_str)
+    except ValueError:
+        return normalize_float(number_str)
+    return number_str
 
 
 def str_fabs(number_str):
